@@ -502,6 +502,10 @@ Definition apply_boost (a : uast) (b : N * N) : uast := if is_one b then a else 
 
 (* ------------------------------------------------------------------ the recursive part *)
 Section Rec.
+  (* shape of `literal` (pinned: QG_LITERAL_REJECTS_BARE_EXISTS): true = an exists-leaf without a
+     field name makes the first alternative fail (map_res ... Err), false = the old shape, where
+     UserInputLeaf::set_field(None) is reached and its `expect` panics *)
+  Variable rej : bool.
   Variable astp : str -> res uast.     (* `ast` one level down *)
   Variable leafp : str -> res uast.    (* `leaf` one level down *)
 
@@ -526,7 +530,11 @@ Section Rec.
   Definition literal (s : str) : res uast :=
     let '(fo, s1) := match field_name s with Some (f, r) => (Some f, r) | None => (None, s) end in
     match leaf_alts s1 with
-    | Some (l, r) => match set_field l fo with Some l' => ROk (Leaf l') r | None => RAbort Panic end
+    | Some (l, r) =>
+        match set_field l fo with
+        | Some l' => ROk (Leaf l') r
+        | None => if rej then term_group s else RAbort Panic
+        end
     | None => term_group s
     end.
 
@@ -636,12 +644,15 @@ Section Ast.
     end.
 End Ast.
 
-(* gp fuel true = ast, gp fuel false = leaf *)
-Fixpoint gp (fuel : nat) (is_ast : bool) (s : str) : res uast :=
+(* gp_s rej fuel true = ast, gp_s rej fuel false = leaf *)
+Fixpoint gp_s (rej : bool) (fuel : nat) (is_ast : bool) (s : str) : res uast :=
   match fuel with
   | O => RAbort OutOfFuel
-  | S f => if is_ast then ast_body (gp f false) s else leaf_body (gp f true) (gp f false) s
+  | S f => if is_ast then ast_body (gp_s rej f false) s else leaf_body rej (gp_s rej f true) (gp_s rej f false) s
   end.
+(* the shape of the code under verification, regenerated from query_grammar.rs *)
+Definition rejects_bare_exists : bool := QG_LITERAL_REJECTS_BARE_EXISTS =? 1.
+Definition gp : nat -> bool -> str -> res uast := gp_s rejects_bare_exists.
 
 (* rewrite_ast *)
 Fixpoint dedupe (seen : list (option occur * uast)) (l : list (option occur * uast)) : list (option occur * uast) :=
@@ -668,17 +679,19 @@ Inductive outcome := Ok (u : uast) | Err | Panicked | NoFuel.
 Definition ref_fuel (s : str) : nat := (2 * length s + 2)%nat.
 
 (* parse_to_ast: ms0, opt(ast), eof *)
-Definition parse_raw (s : str) : outcome :=
+Definition parse_raw_s (rej : bool) (s : str) : outcome :=
   let s0 := skip_ms s in
-  match gp (ref_fuel s) true s0 with
+  match gp_s rej (ref_fuel s) true s0 with
   | ROk a [] => Ok a
   | ROk _ (_ :: _) => Err
   | RFail => if is_nil s0 then Ok (Clause []) else Err
   | RAbort Panic => Panicked
   | RAbort OutOfFuel => NoFuel
   end.
-Definition parse_ref (s : str) : outcome :=
-  match parse_raw s with Ok a => Ok (rewrite_ast a) | o => o end.
+Definition parse_ref_s (rej : bool) (s : str) : outcome :=
+  match parse_raw_s rej s with Ok a => Ok (rewrite_ast a) | o => o end.
+Definition parse_raw : str -> outcome := parse_raw_s rejects_bare_exists.
+Definition parse_ref : str -> outcome := parse_ref_s rejects_bare_exists.
 
 Definition outcome_eqb (a b : outcome) : bool :=
   match a, b with
@@ -688,7 +701,8 @@ Definition outcome_eqb (a b : outcome) : bool :=
   end.
 
 (* ------------------------------------------------------------------ known-finding classes *)
-(* F12: UserInputLeaf::set_field(None) is reached on an Exists leaf (`expect` panics).  `exists`
+(* F12 (fixed in the code; class kept for the witness of the old shape):
+   UserInputLeaf::set_field(None) is reached on an Exists leaf (`expect` panics).  `exists`
    accepts ms0 `*` followed by whitespace (char::is_whitespace), an ESCAPE_IN_WORD character other
    than backslash, or the end; `leaf` intercepts a `*` only when it is followed by nom-multispace,
    `)`, the end or such an ESCAPE_IN_WORD character.  Class: (i) an occurrence marker, whitespace,
